@@ -26,6 +26,24 @@ func classifyBlockSpends(blocks []*ledger.Block) string {
 		sameIds[t.Id()] = true
 	}
 	kind := "plain"
+	// a yielding output to an address that the previous block removes (and does not re-add)
+	removed := map[string]bool{}
+	for _, a := range prev.RemovedRegisteredAddresses() {
+		removed[a] = true
+	}
+	for _, a := range prev.AddedRegisteredAddresses() {
+		delete(removed, a)
+	}
+	for _, t := range last.Transactions() {
+		if t.HasReward() {
+			continue
+		}
+		for _, o := range t.Outputs() {
+			if o.IsYielding() && removed[o.Address()] {
+				kind = "just-removed-yield"
+			}
+		}
+	}
 	for _, t := range last.Transactions() {
 		for _, in := range t.Inputs() {
 			if sameIds[in.TransactionId()] {
